@@ -228,6 +228,8 @@ def execute(spec, count_lines=False):
                 fail("C17.save_mutates", i, op, "ok", "save() changed the record list")
             fired = injector is not None and injector.fired
             if fired:
+                from ..sim.faults import settle
+                settle(exc)
                 res.fault_fired = True
                 known[name] = None  # nothing is claimed about the file of an aborted save
                 res.outcomes.append("injected")
@@ -348,8 +350,11 @@ def execute(spec, count_lines=False):
                                  "the exception raised inside the with block was swallowed")
                     if injector:
                         res.save_lines[(i, "exit")] = injector.count
-                    recs = [str(r) for r in wl]
                     fired_exit = injector is not None and injector.fired
+                    if fired_exit:
+                        from ..sim.faults import settle
+                        settle(raised)
+                    recs = [str(r) for r in wl]
                     if entered_len != 0:
                         fail("C17.enter_clears", i, op, "ok", f"the worklist held {entered_len} records right after entering the with block")
                     if diskfull_exit:
